@@ -397,7 +397,10 @@ def get_first_body_node_loc(body):
         return None
 
     if type(body[0]) in (FunctionDef, AsyncFunctionDef, ClassDef) and body[0].decorator_list:  # type: ignore[attr-defined]
-        return body[0].decorator_list[0].lineno, body[0].col_offset  # type: ignore[attr-defined]
+        # the expression may start on a later line than its @ and left of it:
+        # the line it starts on is early enough, a decorated statement has
+        # its lines for itself
+        return body[0].decorator_list[0].lineno, 0  # type: ignore[attr-defined]
 
     for n in body:
         if n.col_offset >= 0:
